@@ -205,17 +205,17 @@ def stage_lines(report, tier, rng, dist, runner):
         total = inj.count
         save_path = [i for i, f in enumerate(inj.files) if f in ('cache.py', 'storage.py', 'base.py')]
         dist[f'{runner}_line_events'] += total
-        if runner == 'serial' and tier == 'thorough':
-            targets = list(range(total))
+        # under the process runner: the few-line windows inside the executor (a result being applied, a worker being
+        # launched, futures being cancelled or stopped) are targeted on top of the uniform sample
+        exec_lines = [i for i, (f, fn) in enumerate(zip(inj.files, inj.funcs)) if f == 'process.py' and 'log' not in fn and 'monitor' not in fn.lower()]
+        # every line boundary inside the executor's own state changes (launching a worker, applying a result, cancel, stop)
+        critical = [i for i in exec_lines if inj.funcs[i] in ('_start_processes', '_consume_result_queue', '_consume', 'submit', 'cancel', 'stop',
+                                                               'set_result', 'set_exception', 'result', 'join', 'close')]
+        dist[f'{runner}_executor_line_events'] += len(exec_lines) if runner == 'l2' else 0
+        if (runner == 'serial' and tier == 'thorough') or (runner == 'l2' and tier == 'thorough' and ci == 0):
+            targets = list(range(total))          # every line event of the run (serial; the wide case under the process runner)
         else:
             k = {('serial', 'quick'): 90, ('l2', 'quick'): 40, ('l2', 'thorough'): 400}[(runner, tier)]
-            # under the process runner: the few-line windows inside the executor (a result being applied, a worker being
-            # launched, futures being cancelled or stopped) are targeted on top of the uniform sample
-            exec_lines = [i for i, (f, fn) in enumerate(zip(inj.files, inj.funcs)) if f == 'process.py' and 'log' not in fn and 'monitor' not in fn.lower()]
-            # every line boundary inside the executor's own state changes (launching a worker, applying a result, cancel, stop)
-            critical = [i for i in exec_lines if inj.funcs[i] in ('_start_processes', '_consume_result_queue', '_consume', 'submit', 'cancel', 'stop',
-                                                                   'set_result', 'set_exception', 'result', 'join', 'close')]
-            dist[f'{runner}_executor_line_events'] += len(exec_lines) if runner == 'l2' else 0
             if runner == 'serial':
                 extra = rng.sample(save_path, min(len(save_path), 60))
             else:
